@@ -290,7 +290,8 @@ def sanitizeFrame (cfg : Config) (r : RS) (flags cw ch fuel : Nat) : WP (Option 
   let r := r.set 2 .idle     -- `reader.child_reader()`
   (if flagSet flags 16 then
       (peekHeader r 2).bind fun (nm, r) =>
-        if nm = some FALPH then (readHeader r 2 FALPH).bind fun r => (alphChunk r 2 cw ch).bind fun r => .done (true, r)
+        -- the alpha plane of a frame has the dimensions of the frame (lib.rs: `sanitize_image_data_with_dimensions`)
+        if nm = some FALPH then (readHeader r 2 FALPH).bind fun r => (alphChunk r 2 fw fh).bind fun r => .done (true, r)
         else .done (false, r)
     else .done (false, r)).bind fun (sawAlph, r) =>
   (readAnyHeader r 2).bind fun (name, r) =>
